@@ -7,8 +7,8 @@ From Coq Require Import List Arith ZArith Bool.
 From VBase Require Import FieldOps ZpOps.
 From VGen Require Import F64 F62 F128.
 From VModel Require Import Polynom ExtField PolynomExt.
-From VProofs Require Import PolyBase PolyArith PolyUtils PolyDiv PolyRoots PolyInterp PolyBatch PolyUnique PolyInst.
-From VProofs Require Import ZpLaws ExtModel ExtConcrete.
+From VProofs Require Import PolyBase PolyArith PolyCoeff PolyUtils PolyDiv PolyExact PolyMixed PolyRoots PolyInterp PolyBatch PolyUnique PolyInst.
+From VProofs Require Import ZpLaws ExtTheory ExtModel ExtConcrete.
 Import ListNotations.
 Local Open Scope nat_scope.
 
@@ -249,11 +249,58 @@ Theorem C20_syn_div_roots_exact : forall roots q, roots <> [] -> q <> [] ->
   syn_div_roots_in_place O (fold_left (linmul O) roots q) roots = Ok (q ++ repeat zero (length roots)).
 Proof. exact (syn_div_roots_exact O L). Qed.
 
-(* NOT PROVED (tested only, by the correspondence and the falsifier):
-   - exact LONG division: if a = q0 * b coefficient-wise then div a b = q0 and the remainder part of the working copy
-     is zero.  C20_div_spec gives a = q*b + r only as an identity of polynomial FUNCTIONS; over a finite field the
-     uniqueness argument needs the coefficient-level fact lead(q*b) = lead(q)*lead(b), not developed here.
-   - exact division by x^a - b for a >= 2. *)
+(* ---------------------------------------------------------------- coefficient-level statements (normal forms) *)
+(* `coeff O p k` = nth k p 0;  `conv O p q k` = gsum_{i<=k} p_i q_{k-i} is the k-th coefficient of the product.
+   Identities of coefficient lists are stronger than identities of polynomial functions over a finite field. *)
+Theorem C20_conv_def : forall p q k,
+  conv O p q k = gsum O (fun i => fmul O (coeff O p i) (coeff O q (k - i))) (S k).
+Proof. reflexivity. Qed.
+
+(* the crate's mul computes exactly the convolution *)
+Theorem C20_mul_coeff : forall a b r, mul O a b = Ok r -> forall k, coeff O r k = conv O a b k.
+Proof. exact (mul_coeff O L). Qed.
+
+(* long division, coefficient by coefficient: a_k = (q*b)_k + r_k for every k, r = first deg(b) entries of the copy *)
+Theorem C20_div_coeff_spec : forall a b q aw, div_full O a b = Ok (q, aw) ->
+  forall k, coeff O a k = fadd O (conv O q b k) (coeff O (firstn (degree_of O b) aw) k).
+Proof. exact (div_coeff_spec O L). Qed.
+
+(* quotient and remainder are unique as coefficient lists (leading coefficient of b non-zero, deg r < deg b) *)
+Theorem C20_divmod_unique : forall b n q1 q2 r1 r2,
+  coeff O b n <> zero -> (forall j, n < j -> coeff O b j = zero) ->
+  (forall k, n <= k -> coeff O r1 k = zero) -> (forall k, n <= k -> coeff O r2 k = zero) ->
+  (forall k, fadd O (conv O q1 b k) (coeff O r1 k) = fadd O (conv O q2 b k) (coeff O r2 k)) ->
+  (forall k, coeff O q1 k = coeff O q2 k) /\ (forall k, coeff O r1 k = coeff O r2 k).
+Proof. exact (divmod_unique O L). Qed.
+
+(* EXACT LONG DIVISION: if a = q0 * b coefficient-wise, b a non-zero polynomial, q0 non-zero, then div does not
+   panic, returns q0 (same coefficients; length deg(q0)+1, i.e. q0 without its leading zeros) and the remainder part
+   of the working copy is zero.  (q0 = 0 with deg b > 0 is the documented panic "divisor of higher degree".) *)
+Theorem C20_div_exact : forall a b q0,
+  coeff O b (degree_of O b) <> zero -> (exists j, coeff O q0 j <> zero) ->
+  (forall k, coeff O a k = conv O q0 b k) ->
+  exists q aw, div_full O a b = Ok (q, aw) /\
+    (forall k, coeff O q k = coeff O q0 k) /\
+    (forall k, coeff O (firstn (degree_of O b) aw) k = zero) /\
+    degree_of O a = degree_of O q0 + degree_of O b /\
+    length q = degree_of O q0 + 1.
+Proof. exact (div_exact O L). Qed.
+
+(* the same with the crate's own product: div (mul q0 b) b = q0 *)
+Theorem C20_div_mul_exact : forall q0 b a,
+  coeff O b (degree_of O b) <> zero -> (exists j, coeff O q0 j <> zero) -> mul O q0 b = Ok a ->
+  exists q aw, div_full O a b = Ok (q, aw) /\
+    (forall k, coeff O q k = coeff O q0 k) /\ (forall k, coeff O (firstn (degree_of O b) aw) k = zero) /\
+    length q = degree_of O q0 + 1.
+Proof. exact (div_mul_exact O L). Qed.
+
+(* EXACT DIVISION BY x^a - b, a >= 2 (both loop variants, b = 1 included): if p_k = q_{k-a} - b q_k for all k
+   (p = q * (x^a - b)), the slice becomes q padded with zeros and the discarded remainder is zero *)
+Theorem C20_syn_div_exact : forall p a b q, 2 <= a -> b <> zero -> length q + a <= length p -> q <> [] ->
+  (forall k, coeff O p k = fsub O (if a <=? k then coeff O q (k - a) else zero) (fmul O b (coeff O q k))) ->
+  syn_div_in_place_full O p a b
+  = Ok ((q ++ repeat zero (length p - a - length q)) ++ repeat zero a, repeat zero a).
+Proof. exact (syn_div_exact_gen O L). Qed.
 
 End C20.
 
@@ -296,6 +343,13 @@ Print Assumptions C20_interpolate_eval_many_rlz.
 Print Assumptions C20_interpolate_unique.
 Print Assumptions C20_syn_div_exact_linear.
 Print Assumptions C20_syn_div_roots_exact.
+Print Assumptions C20_conv_def.
+Print Assumptions C20_mul_coeff.
+Print Assumptions C20_div_coeff_spec.
+Print Assumptions C20_divmod_unique.
+Print Assumptions C20_div_exact.
+Print Assumptions C20_div_mul_exact.
+Print Assumptions C20_syn_div_exact.
 
 (* ---------------------------------------------------------------- non-vacuity *)
 (* the hypothesis `FLaws O` is satisfiable: GF(7) *)
@@ -317,6 +371,35 @@ Theorem C20_extension_fields_satisfy_laws :
 Proof. exact (conj f64_quad_laws (conj f62_quad_laws (conj f128_quad_laws (conj f64_cube_laws f62_cube_laws)))). Qed.
 Print Assumptions C20_extension_fields_satisfy_laws.
 
+(* ---------------------------------------------------------------- mixed instantiations eval<B,E>, mul_acc<F,E> *)
+(* for every extension carrier E with field laws and ANY map `from : B -> E` (E::from): *)
+Theorem C20_eval_mixed_spec : forall (B E : Type) (OE : FOps E), FLaws OE -> forall (from : B -> E) p x,
+  eval_mixed OE from p x = peval OE (map from p) x /\ eval_mixed OE from p x = eval OE (map from p) x.
+Proof. intros B E OE LE from p x. split. apply (eval_mixed_spec OE LE). apply (eval_mixed_eq_eval OE LE). Qed.
+Print Assumptions C20_eval_mixed_spec.
+
+Theorem C20_mul_acc_mixed_spec : forall (B E : Type) (OE : FOps E) (mul_base : E -> B -> E) (zb : B) a b c,
+  (length a = length b ->
+     exists r, mul_acc_mixed OE mul_base a b c = Ok r /\ length r = length a /\
+               forall i, i < length a -> nth i r (fzero OE) = fadd OE (nth i a (fzero OE)) (mul_base c (nth i b zb))) /\
+  (mul_acc_mixed OE mul_base a b c <> Panic <-> length a = length b).
+Proof. intros B E OE. exact (mul_acc_mixed_spec OE). Qed.
+Print Assumptions C20_mul_acc_mixed_spec.
+
+(* with C08's mul_base = multiplication by the embedded base element, mul_acc<F,E> is mul_acc<E,E> on the embedded
+   vector: stated for the f64 quadratic and cubic extensions over any base field with FLaws (the other three alike) *)
+Theorem C20_mul_acc_mixed_is_embedded : forall F (O : FOps F), FLaws O ->
+  (forall a b c, mul_acc_mixed_quad O (f64_x2 O) a b c
+                 = mul_acc (quad_ops O (f64_x2 O)) a (map (q_from_base O) b) c) /\
+  (forall a b c, mul_acc_mixed_cube O (f64_x3 O) a b c
+                 = mul_acc (cube_ops O (f64_x3 O)) a (map (c_from_base O) b) c).
+Proof.
+  intros F O L. split; intros a b c.
+  - apply mul_acc_mixed_embed. intros e y. apply (f64_ext2_mul_base_eq O L).
+  - apply mul_acc_mixed_embed. intros e y. apply (f64_ext3_mul_base_eq O L).
+Qed.
+Print Assumptions C20_mul_acc_mixed_is_embedded.
+
 (* instances of the theorems' hypotheses and conclusions, computed by the kernel *)
 Example ex_interpolate_zero_x :           (* distinct xs containing 0, equal lengths: Ok, and evaluates back to ys *)
   NoDup [e0; e1; e3] /\ interpolate f7_ops true [e0; e1; e3] [e5; e0; e2] false = Ok [e5; e0; e2] /\
@@ -332,6 +415,12 @@ Example ex_interpolate_batch :            (* two batches, N = 2, X = 0 present: 
   interpolate f7_ops true [e3; e4] [e1; e1] false = Ok [e1; e0] /\
   interpolate_batch f7_ops true 0 [[]] [[]] = Panic /\
   interpolate f7_ops true [e0; e1; e3] (eval_many f7_ops [e2; e6] [e0; e1; e3]) false = Ok [e2; e6; e0].
+Proof. vm_compute. repeat split. Qed.
+
+Example ex_exact :                        (* div (mul q0 b) b = q0 with zero remainder; syn_div (q (x^2 - 3)) 2 3 = q *)
+  mul f7_ops [e3; e0; e5] [e2; e6; e1; e0] = Ok [e6; e4; e6; e2; e5; e0] /\
+  div_full f7_ops [e6; e4; e6; e2; e5; e0] [e2; e6; e1; e0] = Ok ([e3; e0; e5], [e0; e0; e3; e0; e5; e0]) /\
+  syn_div_in_place_full f7_ops [e5; e1; e3; e2] 2 e3 = Ok ([e3; e2; e0; e0], [e0; e0]).
 Proof. vm_compute. repeat split. Qed.
 
 Example ex_div :                          (* (x^3+x^2+2x+2) / (x^2+2) = x+1, remainder in the working copy *)
